@@ -12,6 +12,13 @@ def _loose(op):
 
 
 def _corr_skip(op, impl, model):
+    if op.startswith("join "):
+        # outcome of Run and "both producer goroutines ended"; the message counts depend on the schedule
+        t = impl.split()
+        m = model.split()
+        if len(t) == 5 and len(m) == 2 and t[3] == m[1]:
+            return t[0] == m[0] or (op.split()[2] == "oj" and op.split()[6] != "-" and t[0] == "stop")
+        return False
     if not op.startswith("json "):
         return False
     summ = impl.split(" |", 1)[0]
@@ -21,6 +28,10 @@ def _corr_skip(op, impl, model):
 
 
 def _nontrivial(op, out):
+    if op.startswith("join "):
+        return out.split()[0] in ("ok", "stop", "err") and "sent=0,0" not in out
+    if op.startswith("race "):
+        return out.startswith("norace")
     return op.startswith("json ") and " wsent," in out
 
 
